@@ -43,6 +43,15 @@ def build_scenarios(ck, sr, cfgs, seeds):
                     i = len(scripts)
                     scripts.append(base + " ; replay %s 1 ; st" % tgt)
                     inj_desc[i] = [None]; meta.append((name, k, tgt, nm))
+            if "smaxed" in cfg:
+                # TLS 1.3 0-RTT: the client writes early data behind its ClientHello; the server either accepts it (resumption PSK,
+                # delivered in WAIT_EOED up to the limit) or rejects it and skips the undecryptable records up to its limit
+                pump = "".join(" ; step c2s 9 ; step s2c 9" for _ in range(4))
+                for sizes in ((5,), (600,), (600, 300), (600, 600), (999, 1, 1), (3000, 1999), (3000, 2001), (1, 1, 1, 1)):
+                    i = len(scripts)
+                    scripts.append(sesslib.newcmd(cfg, seed) + "".join(" ; app c %s" % ("%02x" % (0x41 + j) * n) for j, n in enumerate(sizes)) + pump
+                                   + " ; app c 6c61746572 ; step c2s 9 ; app s 7265706c79 ; step s2c 9 ; st")
+                    meta.append((name, 0, "s", "earlydata:" + "+".join(str(n) for n in sizes)))
             full0 = prefix_script(cfg, seed, trace, len(trace))
             # the application-data gate in every handshake state: on an established session (keys active both ways) the
             # receiver's hsState is overwritten with each SSL_HS_* value, then a genuine sealed application record arrives
@@ -98,7 +107,7 @@ def run(ck):
     ck.regen([("consts.sh",), ("gen_defines.py",)])
     ck.coq_properties()
     sr = sesslib.SessRun(ck)
-    cfgs = ["tls12", "tls13", "tls13c_12s", "tls12_cauth", "tls13_cauth", "tls12_cbc", "tls12_resumed_id", "tls12_resumed_ticket", "tls13_resumed_psk"] if ck.tier == "quick" else list(CONFIGS)
+    cfgs = ["tls12", "tls13", "tls13c_12s", "tls12_cauth", "tls13_cauth", "tls12_cbc", "tls12_resumed_id", "tls12_resumed_ticket", "tls13_resumed_psk", "tls13_resumed_early", "tls13_extpsk"] if ck.tier == "quick" else list(CONFIGS)
     seeds = [ck.seed] if ck.tier == "quick" else [ck.seed, ck.seed + 1, ck.seed + 2]
     scripts, inj_desc, meta = build_scenarios(ck, sr, cfgs, seeds)
     outs = sr.run(scripts)
@@ -112,11 +121,17 @@ def run(ck):
     for si, st, d in back:
         if st.appdata:
             legit = st.kind == "step" and st.pre["done"] == 1
+            # accepted 0-RTT data: a TLS 1.3 server that enabled early data for a resumption PSK, in WAIT_EOED, from a record that verified
+            if st.kind == "step" and st.pre["v"] == 1 and st.pre["sv"] == 1 and st.pre["se"] == 1 and st.pre["hs"] == 27 and d.get("prot") == "good":
+                ck.count("accepted_early_data_delivered"); legit = True
             # fabricated-state sweep only: the <= 1.2 gate deliberately admits hsState = SERVER_HELLO with read protection on
             # (a client that sent a renegotiation ClientHello); with rehandshaking compiled out no real session reaches that
             # combination - it is produced here by overwriting hsState - and the C01 theorem lists it in deliver_state
             if meta[si][3].startswith("gate:") and st.pre["v"] == 0 and st.pre["hs"] == 2 and st.pre["R"]:
                 ck.count("gate_sweep_rehandshake_allowance"); legit = True
+            # likewise WAIT_EOED (27) is entered by a real TLS 1.3 server only after it accepted early data; the sweep fabricates it
+            if meta[si][3].startswith("gate:") and st.pre["v"] == 1 and st.pre["hs"] == 27 and st.pre["R"]:
+                ck.count("gate_sweep_wait_eoed_allowance"); legit = True
             if not legit:
                 ck.spec_violation("appdata:%s:v%d:hs%d:R%d:%s" % (st.kind, st.pre["v"], st.pre["hs"], st.pre["R"], d.get("prot")),
                                   "application data %s reported to the %s application from a %s record in hsState %d (handshake complete=%d, read protection=%d)" % (
